@@ -2,6 +2,7 @@ import CacheVerif.Proofs.CacheLedger
 import CacheVerif.Model.CacheOf
 import CacheVerif.Proofs.Twin
 import CacheVerif.Proofs.ConcCacheLin
+import CacheVerif.Proofs.DeepSource
 /-!
 # C06 — the evicted callback fires exactly once per removed entry, with that very entry
 
@@ -90,6 +91,35 @@ theorem C06_deleteExpired (s : St K V) (hw : AMap.WF s.items) :
     | some c' =>
       simp only [List.map_map]
       exact List.Nodup.sublist (keys_deadAt_sublist s.now s.items) hw
+
+/-! ### The same, for the source text (`Gen.Deep.*`, printed from the working tree on every run)
+
+`DeepCache.deep_step` / `DeepCacheOf.deep_step`: the interpreter of the Go subset, run on the generated method
+bodies, computes exactly `step`; so the statements above are statements about what the two files say now. -/
+
+/-- **C06 for the text of `GetAndDelete` / `Delete` in both files.** -/
+theorem C06_source_getAndDelete (s : St K V) (k : K) (T : Deep.Twin K V) (hT : DeepSource.IsTwin T) :
+    ∃ s' r, Deep.deepStep T s (.getAndDelete k) = some (s', r) ∧
+      r.cbs = (match s.items.get k, s.cb with
+               | some i, some c => [(c, k, i.v)]
+               | _, _ => []) ∧
+      s'.items.get k = none ∧ ∀ k', k' ≠ k → s'.items.get k' = s.items.get k' := by
+  have h := C06_getAndDelete s k
+  exact ⟨_, _, DeepSource.step s _ T hT, h⟩
+
+/-- **C06 for the text of `DeleteExpired` in both files**: exactly the entries expired at the call's clock are
+reported, once each, to the callback in force, and exactly they are gone afterwards. -/
+theorem C06_source_deleteExpired (s : St K V) (hw : AMap.WF s.items) (T : Deep.Twin K V)
+    (hT : DeepSource.IsTwin T) :
+    ∃ s' r, Deep.deepStep T s .deleteExpired = some (s', r) ∧
+      (∀ c k v, (c, k, v) ∈ r.cbs ↔
+        (s.cb = some c ∧ ∃ i, s.items.get k = some i ∧ i.v = v ∧ TTL.expired i.e s.now = true)) ∧
+      (r.cbs.map (·.2.1)).Nodup ∧
+      (∀ k, s'.items.get k = match s.items.get k with
+        | some i => if TTL.expired i.e s.now then none else some i
+        | none => none) := by
+  have h := C06_deleteExpired s hw
+  exact ⟨_, _, DeepSource.step s _ T hT, h⟩
 
 /-- the calls that remove entries -/
 def removes : Op K V → Bool
